@@ -26,12 +26,12 @@ import (
 )
 
 type seqOp struct {
-	Op      string `json:"op"`
-	Sess    string `json:"sess,omitempty"`
-	Stream  string `json:"stream,omitempty"`
-	Size    int    `json:"size,omitempty"`
-	Index   int    `json:"index,omitempty"`
-	Max     int    `json:"max,omitempty"`
+	Op     string `json:"op"`
+	Sess   string `json:"sess,omitempty"`
+	Stream string `json:"stream,omitempty"`
+	Size   int    `json:"size,omitempty"`
+	Index  int    `json:"index,omitempty"`
+	Max    int    `json:"max,omitempty"`
 }
 
 type streamKey struct{ sess, stream string }
@@ -697,7 +697,6 @@ func structuralCheck(c *vh.Case, hist []cOp, evict bool) {
 		}
 	}
 }
-
 
 // closeUnderLoadCase: session A holds most of the byte budget spread over many streams; it is closed
 // while other sessions append items that only fit once A is gone, and while the limit is changed.
